@@ -30,6 +30,7 @@ FRAGMENTS = [
     ("PSLoops", "gen_psloops"),
     ("Physics", "gen_physics"),
     ("WakeMap", "gen_wakemap"),
+    ("H5Read", "gen_h5read"),
 ]
 
 
